@@ -370,6 +370,169 @@ fn replay(g: u64, hist: &[Op], rep: &mut Report) -> Option<(W, bool)> {
     Some((w, true))
 }
 
+/// Part 2 — a light client's wallet. The blocks of the C18 sweep (n payments to distinct keys,
+/// with and without golden ticket and fee transaction) are served as lite blocks for each single
+/// payee key (real generate_lite_block, wire round trip) to an SPV node whose wallet owns that
+/// key. The wallet must then record each of its outputs under the coordinates they have in the
+/// full block, hold the right balance, and build a transaction that validates on a full node.
+fn lite_wallets(rep: &mut Report, tier: &Tier) {
+    use saito_core::core::consensus::block::{Block, BlockType};
+    let nmax = if tier.thorough { 9 } else { 6 };
+    let mut jobs: Vec<(usize, bool)> = vec![];
+    for n in 1..=nmax {
+        jobs.push((n, false));
+        jobs.push((n, true));
+    }
+    let results = par_map(&jobs, workers(), |_, (n, with_gt)| {
+        let mut r = rep.child();
+        let (w, bi) = match super::c18::base_block(*n, *with_gt) {
+            Ok(x) => x,
+            Err(e) => {
+                r.machinery(format!("lite wallets: base block n={} gt={}: {}", n, with_gt, e));
+                return r;
+            }
+        };
+        let mut full = Block::deserialize_from_net(&w.blocks[bi].bytes).unwrap();
+        full.generate().unwrap();
+        let g = w.cfg.consensus.genesis_period;
+        for i in 0..*n {
+            let owner = key(10 + i as u8);
+            r.evaluations += 1;
+            let ctx = json!({"n": n, "golden_ticket": with_gt, "payee": i, "tx_order": full.transactions.iter().map(|t| t.to.first().map(|s| crate::seams::key_name(&s.public_key)).unwrap_or_default()).collect::<Vec<_>>()});
+            // where the owner's outputs really are
+            let mut expect: Vec<String> = vec![];
+            for (ti, t) in full.transactions.iter().enumerate() {
+                for (si, sl) in t.to.iter().enumerate() {
+                    if sl.public_key == owner.public && sl.amount > 0 {
+                        expect.push(format!("{}-{}-{}:{}", full.id, ti, si, sl.amount));
+                    }
+                }
+            }
+            expect.sort();
+            let lite = full.generate_lite_block(vec![owner.public]);
+            let folded = lite.transactions.iter().filter(|t| t.transaction_type == saito_core::core::consensus::transaction::TransactionType::SPV).map(|t| t.txs_replacements).max().unwrap_or(0);
+            let bytes = lite.serialize_for_net(BlockType::Full);
+            let mut cfg = w.cfg.clone();
+            cfg.spv = true;
+            let mut node = LedgerNode::new(owner, cfg);
+            match node.add_block_bytes(&bytes) {
+                Outcome::Done(AddRes::AddedLongest) => {}
+                o => {
+                    r.violate("lite-wallet/lite-block-refused-by-the-light-client", format!("n={} payee {}: {:?}", n, i, o), ctx);
+                    continue;
+                }
+            }
+            let o = node.obs();
+            let mut got: Vec<String> = o.wallet_slip_records.iter().filter(|x| x.contains("spent=false")).map(|x| x.split(":spent").next().unwrap().to_string()).collect();
+            got.sort();
+            r.outcome(&format!("lite-wallet:placeholders-folded-up-to-{}", folded.min(3)));
+            if got != expect {
+                r.violate("lite-wallet/output-recorded-under-wrong-coordinates", format!("n={} payee {}: the full block has {:?}, the light client's wallet recorded {:?}", n, i, expect, got), ctx.clone());
+                continue;
+            }
+            let want: u64 = full.transactions.iter().flat_map(|t| t.to.iter()).filter(|s| s.public_key == owner.public).map(|s| s.amount).sum();
+            if o.wallet_balance != want {
+                r.violate("lite-wallet/balance", format!("balance {} but {} was paid to the key", o.wallet_balance, want), ctx.clone());
+            }
+            // a transaction the light client builds must validate on a full node holding the chain
+            let wl = node.wallet.clone();
+            let tip = full.id;
+            let built = run(async move {
+                let mut wal = wl.write().await;
+                Transaction::create(&mut wal, key(2).public, 1, 0, false, None, tip, g)
+            });
+            match built {
+                Outcome::Done(Ok(mut t)) => {
+                    t.sign(&owner.private);
+                    t.generate(&owner.public, 0, 0);
+                    if let Ok(fulln) = w.node_at(bi, key(9)) {
+                        let bc = fulln.blockchain.try_read().unwrap();
+                        if !t.validate(&bc.utxoset, &bc, true) {
+                            r.violate("lite-wallet/built-transaction-invalid-on-the-full-ledger", format!("n={} payee {}: inputs {:?}", n, i, t.from.iter().map(|s| format!("{}-{}-{}:{}", s.block_id, s.tx_ordinal, s.slip_index, s.amount)).collect::<Vec<_>>()), ctx.clone());
+                        } else {
+                            r.outcome("lite-wallet:built-transaction-valid-on-the-full-ledger");
+                        }
+                    }
+                }
+                Outcome::Done(Err(_)) => r.violate("lite-wallet/cannot-build", format!("n={} payee {}: the wallet holds {} but refuses to pay 1", n, i, o.wallet_balance), ctx.clone()),
+                ob => r.violate("lite-wallet/abort", ob.label(), ctx.clone()),
+            }
+            r.distinct.insert(format!("lite|{}|{}|{}", n, with_gt, i));
+        }
+        r
+    });
+    for r in results {
+        rep.merge(r);
+    }
+}
+
+/// digest of a wallet-world state: the observable state plus the pool's iteration order (the
+/// order in which the next block will carry the pooled transactions decides the coordinates
+/// of the outputs the wallet is going to own)
+fn state_digest(w: &W) -> Hash {
+    let mut o = w.p.node.obs();
+    o.files.clear();
+    let mut bytes = o.digest().to_vec();
+    if let Ok(mp) = w.p.node.mempool.try_read() {
+        for k in mp.transactions.keys() {
+            bytes.extend_from_slice(&k[..8]);
+        }
+        // where the next insertion (the producer's own staking / fee transaction) lands among them
+        // depends on the table's size as well
+        bytes.extend_from_slice(&(mp.transactions.capacity() as u64).to_be_bytes());
+    }
+    // the wallet picks inputs in the iteration order of its hash containers, which depends on
+    // how they were filled and emptied, not only on what they hold
+    if let Ok(wal) = w.p.node.wallet.try_read() {
+        for k in wal.unspent_slips.iter() {
+            bytes.extend_from_slice(&k[..]);
+        }
+        bytes.push(0xfe);
+        for k in wal.slips.keys() {
+            bytes.extend_from_slice(&k[..]);
+        }
+    }
+    // the harness's own counter (it makes the amounts of the next payments unique)
+    bytes.extend_from_slice(&w.ctr.to_be_bytes());
+    bytes.push(w.reorged as u8);
+    // ... and the rest of what the harness itself remembers: the chain it can return to, and the
+    // inputs it knows to be committed to pending transactions
+    match &w.abandoned {
+        Some(chain) => {
+            for b in chain.iter() {
+                bytes.extend_from_slice(&saito_core::core::util::crypto::hash(b)[..8]);
+            }
+        }
+        None => bytes.push(0xfd),
+    }
+    for k in w.committed.iter() {
+        bytes.extend_from_slice(&k[..]);
+    }
+    saito_core::core::util::crypto::hash(&bytes)
+}
+
+/// What the audit compares one step after two merged histories: the state without the parts that
+/// depend on the order of transactions inside a block (block hashes, output coordinates). That
+/// order is decided by the layout of the pool's hash table (tombstones left by removed
+/// transactions), which no interface exposes and the state digest therefore cannot hold; two
+/// merged histories may differ in it, and their next blocks then carry the same transactions in
+/// a different order. Everything else must agree.
+fn order_free_digest(w: &W) -> Hash {
+    let o = w.p.node.obs();
+    let amt = |k: &SaitoUTXOSetKey| Slip::parse_slip_from_utxokey(k).map(|s| (s.public_key.to_vec(), s.amount, s.block_id, format!("{:?}", s.slip_type))).unwrap_or_default();
+    let mut utxo: Vec<_> = o.utxo.iter().map(|(k, v)| (amt(k), *v)).collect();
+    utxo.sort();
+    let mut unspent: Vec<_> = o.wallet_unspent.iter().map(amt).collect();
+    unspent.sort();
+    let mut slips: Vec<_> = o.wallet_slips.iter().map(amt).collect();
+    slips.sort();
+    let mut committed: Vec<_> = w.committed.iter().map(amt).collect();
+    committed.sort();
+    let mut pool: Vec<Vec<_>> = w.p.node.mempool.try_read().map(|m| m.transactions.values().map(|t| t.from.iter().map(|s| (s.amount, s.block_id)).chain(t.to.iter().map(|s| (s.amount, 0))).collect()).collect()).unwrap_or_default();
+    pool.sort();
+    saito_core::core::util::crypto::hash(format!("{}|{}|{:?}|{:?}|{:?}|{:?}|{:?}|{:?}|{}|{}|{:?}", o.tip_id, o.wallet_balance, utxo, unspent, slips, committed, pool, o.reservoirs, w.ctr, w.reorged, w.abandoned.as_ref().map(|c| c.len())).as_bytes())
+}
+
 pub fn main(tier: Tier, _replay: Option<String>) -> i32 {
     let mut rep = Report::new("C19", tier.clone(), "model_checking");
     let depth = if tier.thorough { 8 } else { 6 };
@@ -377,6 +540,32 @@ pub fn main(tier: Tier, _replay: Option<String>) -> i32 {
     rep.rule = "breadth-first search over operation sequences on the producer node's real wallet at genesis period 3 (outputs expire inside the bound) and 6 (nothing expires: what a reorganisation returns can be spent again); state = history, deduplicated by the observable digest (chain, utxo, wallet slips / unspent / balance, pool)".into();
     rep.assumptions = vec!["an output created exactly genesis_period blocks before the tip is a don't-care for the ledger comparison (window edge)".into(), "ledger comparison only on histories without reorganisation, balance = sum(unspent) always".into()];
     let g: u64 = std::env::var("VERIF_C19_G").ok().and_then(|x| x.parse().ok()).unwrap_or(3);
+    if let Ok(hs) = std::env::var("VERIF_C19_DIFF") {
+        // developer aid: VERIF_C19_DIFF="In1,Block|In2,Block" prints what differs between the two states
+        let parse = |x: &str| -> Vec<Op> { x.split(',').filter_map(|n| OPS.iter().find(|o| format!("{:?}", o) == n.trim()).cloned()).collect() };
+        let mut it = hs.split('|');
+        let (a, b) = (parse(it.next().unwrap_or("")), parse(it.next().unwrap_or("")));
+        let mut r = rep.child();
+        if let (Some((wa, _)), Some((wb, _))) = (replay(g, &a, &mut r), replay(g, &b, &mut r)) {
+            println!("digest equal: {}", state_digest(&wa) == state_digest(&wb));
+            for d in wa.p.node.obs().diff(&wb.p.node.obs()) {
+                println!("  {}", d.chars().take(400).collect::<String>());
+            }
+            for w in [&wa, &wb] {
+                let mp = w.p.node.mempool.try_read().unwrap();
+                let wal = w.p.node.wallet.try_read().unwrap();
+                println!("pool txs {:?} utxo_map {} work {} new_tx_added {} queue {} gts {} | wallet pending {} | ledger(ref) utxo {} tip {} log {:?}", mp.transactions.values().map(|t| format!("{}>{}", t.from.iter().map(|s| format!("{}-{}-{}", s.block_id, s.tx_ordinal, s.slip_index)).collect::<Vec<_>>().join("+"), t.to.iter().map(|s| s.amount.to_string()).collect::<Vec<_>>().join("+"))).collect::<Vec<_>>(), mp.utxo_map.len(), mp.get_routing_work_available(), mp.new_tx_added, mp.blocks_queue.len(), mp.golden_tickets.len(), wal.pending_txs.len(), w.p.ledger.utxo.len(), w.p.tip_id, w.p.log.len());
+            }
+            for w in [&wa, &wb] {
+                if let Some(last) = w.p.chain.last() {
+                    let b = decode_block(last);
+                    println!("tip block {} txs: {:?}", b.id, b.transactions.iter().map(|t| format!("{:?}:{}>{}", t.transaction_type, t.from.len(), t.to.iter().map(|s| s.amount.to_string()).collect::<Vec<_>>().join("+"))).collect::<Vec<_>>());
+                }
+            }
+            println!("ctr {} vs {}; committed {} vs {}; abandoned {:?} vs {:?}", wa.ctr, wb.ctr, wa.committed.len(), wb.committed.len(), wa.abandoned.as_ref().map(|x| x.len()), wb.abandoned.as_ref().map(|x| x.len()));
+        }
+        return 0;
+    }
     if let Ok(hs) = std::env::var("VERIF_C19_HISTORY") {
         // developer aid: evaluate one history, e.g. VERIF_C19_HISTORY=In1,Block,OutSmall,Block,ReorgAway1,OutAll
         let hist: Vec<Op> = hs.split(',').filter_map(|n| OPS.iter().find(|o| format!("{:?}", o) == n.trim()).cloned()).collect();
@@ -403,7 +592,7 @@ pub fn main(tier: Tier, _replay: Option<String>) -> i32 {
     // genesis period 3: outputs expire inside the bound; genesis period 6: nothing expires, so that
     // what a reorganisation gives back to the wallet is still young enough to be spent again
     for g in [3u64, 6] {
-    let mut seen: BTreeSet<Hash> = BTreeSet::new();
+    let mut seen: crate::audit::MergeAudit<Vec<Op>> = crate::audit::MergeAudit::new();
     let mut frontier: Vec<Vec<Op>> = vec![vec![]];
     let mut level = 0;
     while level < depth && !frontier.is_empty() {
@@ -427,15 +616,13 @@ pub fn main(tier: Tier, _replay: Option<String>) -> i32 {
             }
             invariants(&w, &mut r, h);
             r.traces_validated += 1;
-            let mut o = w.p.node.obs();
-            o.files.clear();
-            (r, Some(o.digest()))
+            (r, Some(state_digest(&w)))
         });
         let mut next = vec![];
         for (h, (r, d)) in cands.into_iter().zip(results.into_iter()) {
             rep.merge(r);
             if let Some(d) = d {
-                if seen.insert(d) {
+                if seen.see(d, &h) {
                     next.push(h);
                 }
             }
@@ -451,10 +638,28 @@ pub fn main(tier: Tier, _replay: Option<String>) -> i32 {
         frontier = next;
     }
     rep.states += seen.len() as u64;
-    all_seen.extend(seen);
+    // canonicalisation audit: merged histories agree with their representative one step on
+    {
+        let quiet = Report::new("C19", tier.clone(), "model_checking");
+        seen.audit(if tier.thorough { 2000 } else { 300 }, &format!("wallet-bfs-g{}", g), |h: &Vec<Op>| {
+            OPS.iter()
+                .map(|op| {
+                    let mut x = h.clone();
+                    x.push(*op);
+                    let d = match replay(g, &x, &mut quiet.child()) {
+                        Some((w, true)) => Some(order_free_digest(&w)),
+                        _ => None,
+                    };
+                    (format!("{:?}", op), d)
+                })
+                .collect()
+        }, &mut rep);
+    }
+    all_seen.extend(seen.rep_of.keys().cloned());
     }
     rep.distinct = all_seen.iter().map(|h| hex::encode(&h[0..8])).collect();
+    lite_wallets(&mut rep, &tier);
     rep.sample(json!({"history": ["In1", "Block", "OutSmall", "Block", "ReorgAway1", "ReorgBack"]}));
-    rep.required_outcomes = vec!["wallet-tx-built".into(), "reorg-away".into(), "reorg-back".into()];
+    rep.required_outcomes = vec!["wallet-tx-built".into(), "reorg-away".into(), "reorg-back".into(), "lite-wallet:built-transaction-valid-on-the-full-ledger".into(), "lite-wallet:placeholders-folded-up-to-2".into()];
     rep.finish()
 }
